@@ -42,3 +42,18 @@ def fill(add):
         "Every extraction entry point (checked/unchecked, by key/address, three flavours) on pristine, damaged (one representative per damage class) and missing content, with absent/existing/unreachable destinations and present/absent keys; success must leave exactly the stored bytes, failed verification must not leave the unverified bytes.",
         "Trusted: byte comparison at the destination. reflink success paths unreachable on tmpfs/ext4.",
         "DESIGN.md 4/C18", "seqx")
+    add("C03", "fault_enumeration",
+        "exhaustive crash-point and torn-write enumeration of the real writer process under a ptrace controller (fsx)",
+        "For every writer scenario (one-shot, streamed, memory-mapped and plain, keyed and by address, sync/async-std/tokio, cold/warm/address already present) the real process is killed at the entry of every file-system system call and with every write torn at every byte length (exhaustive up to 4 KiB, boundary values beyond); after every kill every file under content-v2 must sit at the digest of its bytes and a fresh process must read every address as complete data or absent. Also rejected/dropped writers (fewer/more bytes than declared) without any crash.",
+        "Trusted: kernel atomicity of one write/rename system call with respect to the kill; crash = process death (nothing is fsynced, power loss is not claimed); mmap stores touch only the private temp file between two steps.",
+        "DESIGN.md 4/C03", "fsx")
+    add("C04", "fault_enumeration",
+        "exhaustive crash-point and torn-write enumeration (fsx) followed by explicit-state exploration of continuation histories",
+        "Keyed writes (first, overwrite longer/shorter/same content, multi-byte key and metadata, rewrite after removal) and tombstone removals are killed at every system call and with the index append torn at every byte length; every distinct crash state is observed through all lookup entry points (old or new state exactly, other keys unchanged, reference decoder agrees) and every continuation history up to the depth bound is executed (later writes succeed and are visible through every entry point).",
+        "Trusted: as C03. Continuation alphabet of 6 actions, depth 1 quick / 2 thorough.",
+        "DESIGN.md 4/C04", "fsx+seqx")
+    add("C07", "model_checking",
+        "stateless model checking of the implementation: preemption-bounded exhaustive schedule enumeration under a ptrace scheduler, serialisability oracle",
+        "2-3 real library processes (and, for curated pairs, threads of one process) are stopped at every file-system system call; all schedules up to the preemption bound (2 quick, 3 thorough for pairs, triples at 1-2, one unbounded writer pair) are executed; replies and final state must equal the model's result for some sequential order, and for serial schedules the order that ran.",
+        "Trusted: one file-system system call as the atomic step (the property's granularity); dictionary model. Schedules beyond the preemption bound are not covered.",
+        "DESIGN.md 4/C07", "fsx")
